@@ -153,6 +153,7 @@ def run_unit(unit, tier="quick", seed=0, extra_args=(), keep_name=None):
         return None
 
     failures = {}
+    rlimit_fns = {}
     for d in diags:
         if d["level"] != "error":
             continue
@@ -164,7 +165,12 @@ def run_unit(unit, tier="quick", seed=0, extra_args=(), keep_name=None):
                 kind = k
                 break
         if UNDECIDED_PAT.search(d["msg"]):
-            tool_errors.append("rlimit: " + d["msg"] + " @" + str(d["line"]))
+            # a solver resource limit concerns ONE function: that function is undecided, the
+            # verdicts of the other functions of the unit stand
+            if d["line"] is not None:
+                rlimit_fns.setdefault(owner(d["line"]), []).append(d["msg"])
+            else:
+                tool_errors.append("rlimit: " + d["msg"])
             continue
         if kind is None or d["line"] is None:
             tool_errors.append(d["msg"] + " @" + str(d["line"]))
@@ -196,6 +202,8 @@ def run_unit(unit, tier="quick", seed=0, extra_args=(), keep_name=None):
         short = name.split("::")[-1]
         if not entry["failures"] and short in failures:
             entry["failures"] = failures[short]
+        if name in rlimit_fns or short in rlimit_fns:
+            entry["undecided"] = "solver resource limit: " + "; ".join(rlimit_fns.get(name) or rlimit_fns.get(short))
         res["functions"][name] = entry
     for c in unit.canaries:
         e = res["functions"].get(c)
